@@ -379,6 +379,12 @@ def lookup_order(prog, chk):
         "the first scope that defines the name decides (the Some edge returns without continuing the walk)",
         "get_var does not return at the first (innermost) hit",
     )
+    # the answer always comes from that walk: no return of get_var is reached without it (a memo consulted first
+    # answers from a state of the stack that may be gone)
+    if revs:
+        rb = revs[0][0]
+        skipping = [gv.where(x) for x in gv.return_blocks if not gv.dominates(rb, x)]
+        chk.ob(not skipping, "A15.lookup-innermost-first", "get_var:always-walks", gv.where(), "every result of get_var comes from walking the scope stack as it is now", f"get_var can return without walking the scope stack (return at {skipping}): the value comes from somewhere else (a cache, a default) and need not be the innermost current binding")
     # nobody else reads scope variables
     readers = sorted(R.field_readers(prog, "vars", SCOPE))
     allowed = sorted(["<svgdx::context::TransformerContext as svgdx::context::VariableMap>::get_var", SETVAR, "svgdx::context::Scope::with_vars",
